@@ -92,12 +92,33 @@ func nativeRun(c *config, cases []nativeCase) ([]nativeOutcome, string, error) {
 	outPath := filepath.Join(work, "out.json")
 	b, _ := json.Marshal(cases)
 	os.WriteFile(inPath, b, 0o644)
-	cmd := exec.Command("go", "test", "-vet=off", "-count=1", "-timeout", "600s", "-overlay", ovPath,
-		"-run", "^TestVerifReplay$", "./"+c.Pkg+"/")
-	cmd.Dir = c.Repo
-	cmd.Env = append(os.Environ(), "GOFLAGS=-mod=mod", "GOPROXY=off", "GOSUMDB=off", "GOTOOLCHAIN=local",
+	env := append(os.Environ(), "GOFLAGS=-mod=mod", "GOPROXY=off", "GOSUMDB=off", "GOTOOLCHAIN=local",
 		"VERIF_REPLAY_IN="+inPath, "VERIF_REPLAY_OUT="+outPath)
-	out, runErr := cmd.CombinedOutput()
+	// The test binary is built once per check invocation and package (VERIF_RUN_ID), from /repo's current tree.
+	bin := filepath.Join(work, "replay.test")
+	shared := false
+	if id := os.Getenv("VERIF_RUN_ID"); id != "" {
+		dir := filepath.Join(workRoot(), "testbin-"+id)
+		os.MkdirAll(dir, 0o755)
+		bin = filepath.Join(dir, strings.ReplaceAll(c.Pkg, "/", "_")+".test")
+		shared = true
+	}
+	var out []byte
+	var runErr error
+	if _, err := os.Stat(bin); !shared || err != nil {
+		tmpBin := bin + fmt.Sprintf(".%d", os.Getpid())
+		build := exec.Command("go", "test", "-vet=off", "-c", "-o", tmpBin, "-overlay", ovPath, "./"+c.Pkg+"/")
+		build.Dir = c.Repo
+		build.Env = env
+		if bout, err := build.CombinedOutput(); err != nil {
+			return nil, string(bout), fmt.Errorf("native replay build failed (%v): %s", err, tail(string(bout), 3000))
+		}
+		os.Rename(tmpBin, bin)
+	}
+	run := exec.Command(bin, "-test.run", "^TestVerifReplay$", "-test.count=1", "-test.timeout", "600s")
+	run.Dir = filepath.Join(c.Repo, c.Pkg)
+	run.Env = env
+	out, runErr = run.CombinedOutput()
 	data, err := os.ReadFile(outPath)
 	if err != nil {
 		return nil, string(out), fmt.Errorf("native replay produced no output (%v): %s", runErr, tail(string(out), 2000))
